@@ -154,6 +154,8 @@ pub struct Profile {
     pub xml_chars: bool,
     /// restrict lexical forms: drop U+0000
     pub no_nul: bool,
+    /// relative IRI references allowed (only with generalized)
+    pub rel_iris: bool,
     pub max_quads: usize,
     pub max_bnodes: usize,
     /// probability (x/8) to mix in a guaranteed shape
@@ -169,6 +171,7 @@ impl Profile {
             vars: false,
             xml_chars: false,
             no_nul: false,
+            rel_iris: false,
             max_quads: 12,
             max_bnodes: 6,
             shapes: true,
@@ -185,6 +188,7 @@ impl Profile {
             star: true,
             generalized: true,
             vars: true,
+            rel_iris: true,
             ..Self::strict()
         }
     }
@@ -263,7 +267,7 @@ impl Alphabet {
         } else {
             vec![]
         };
-        let rel_iris = if p.generalized {
+        let rel_iris = if p.generalized && p.rel_iris {
             draw_subset(t, REL_IRI_POOL, 0, 2)
         } else {
             vec![]
